@@ -139,3 +139,12 @@ package hdkeychain
 //@   assert after Decode#1: freshornil($ret)
 //@   assert after Equal#1: len($arg0) == 4 && len($arg1) == 4 && sameobj($arg0, decoded) && $arg0.off == decoded.off + 78
 //@   assert after DoubleHashB#1: len($arg0) == 78 && sameobj($arg0, decoded) && $arg0.off == decoded.off
+
+//@ func hdkeychain.(*ExtendedKey).Address
+
+//@   requires net != nil
+//@   ensures $calls_pubKeyBytes == 1 && $calls_Hash160 == 1 && $calls_NewAddressPubKeyHash == 1 && result0 == $ret0_NewAddressPubKeyHash#1
+//@   modifies k.pubKey
+//@   assert after pubKeyBytes#1: $arg0 == k
+//@   assert after Hash160#1: sameobj($arg0, $ret_pubKeyBytes#1) && len($arg0) == len($ret_pubKeyBytes#1) && $arg0.off == $ret_pubKeyBytes#1.off
+//@   assert after NewAddressPubKeyHash#1: sameobj($arg0, $ret_Hash160#1) && len($arg0) == len($ret_Hash160#1) && $arg1 == net
